@@ -27,7 +27,7 @@ ADVERSARIAL = [
 
 
 def plan(tier, seed):
-    n = 5 if tier == 'quick' else 120
+    n = 5 if tier == 'quick' else 250
     sp = []
     fams = ['F0', 'F1', 'F2', 'F3', 'F4', 'F5', 'F6', 'F8', 'F9', 'F10']
     for y in (2021, 2022, 2023):
